@@ -6,7 +6,7 @@
    reports which tables of the model's post-state differ from the implementation's and
    whether the outcome class agrees; it also evaluates the invariant monitors on the
    implementation's post-state. All comparison logic lives here, in Gallina. *)
-From SaoVerif Require Import Base.Prelude Base.Ints Model.Did Model.DidSpec Model.DidMon Model.Types Model.Monad Model.Bank Model.Select Model.Node Model.Storage Model.Sao Model.Hooks Model.App.
+From SaoVerif Require Import Base.Prelude Base.Ints Model.Did Model.DidSpec Model.DidMon Model.Types Model.Monad Model.Bank Model.Select Model.Node Model.Storage Model.Sao Model.Hooks Model.App Model.Spec Model.Monitors Model.OpMonitors.
 
 Definition dec_tables (v : value) : option tables :=
   match v with
@@ -141,6 +141,7 @@ Definition family_of_op (op : Op) : string :=
   match op with
   | OBeginBlock | OEndBlock _ => "block"
   | OStaking _ | OSimulate _ => "staking"
+  | OReportFaults _ _ _ | ORecoverFaults _ _ _ => "fault"
   | ODid _ => "did"
   | ONodeCreate _ | ONodeReset _ | OAddVstorage _ _ | ORemoveVstorage _ _ | OClaimReward _ => "node"
   | OSend _ _ _ => "bank"
@@ -150,6 +151,10 @@ Definition family_of_op (op : Op) : string :=
 Definition op_in_domain (op : Op) : bool :=
   match op with
   | ODid o => op_sane_b o
+  | OStore m => sig_sane_b (st_owner m) (st_sig m)
+  | ORenew m => sig_sane_b (rn_owner m) (rn_sig m)
+  | OTerminate _ _ owner _ sg => sig_sane_b owner sg
+  | OUpdatePermission _ _ owner _ _ _ sg _ => sig_sane_b owner sg
   | _ => true
   end.
 
@@ -163,19 +168,47 @@ Definition check_app_step (cx : Ctx) (pre : tables) (op : Op) (outcome : string)
                    | _ => [] end in
       mk_res (family_of_op op) (outcome_str out) (String.eqb (outcome_str out) outcome)
              (diff_tables (enc_state s') post) (outcome_detail out)
-             (failed_monitors (did_monitors (cx_chain cx) (did ipost) ++ opmon))
+             (failed_monitors (did_monitors (cx_chain cx) (did ipost) ++ opmon ++
+                               op_monitors cx s op (String.eqb outcome "ok") ipost ++
+                               app_monitors (match op with OEndBlock _ => true | _ => false end) (cx_height cx) ipost))
              (negb (tables_eqb pre post))
   | None, _ => res_undecodable "pre-state"
   | _, None => res_undecodable "post-state"
+  end.
+
+(* A run of [n] empty blocks recorded as one step: BeginBlock and EndBlock at heights
+   h, h+1, ..., each block [dt] seconds after the previous one. *)
+Fixpoint run_blocks (n : nat) (cx : Ctx) (dt : Z) (s : State) : State * string :=
+  match n with
+  | O => (s, "ok")
+  | S n' =>
+      let '(s1, o1) := step cx s OBeginBlock in
+      if negb (String.eqb (outcome_str o1) "ok") then (s1, outcome_str o1) else
+      let '(s2, o2) := step cx s1 (OEndBlock []) in
+      if negb (String.eqb (outcome_str o2) "ok") then (s2, outcome_str o2) else
+      run_blocks n' {| cx_height := cx_height cx + 1; cx_chain := cx_chain cx; cx_time := cx_time cx + dt; cx_seed := cx_seed cx |} dt s2
+  end.
+
+Definition check_blocks (cx : Ctx) (pre : tables) (n dt : Z) (outcome : string) (post : tables) : value :=
+  match dec_state pre, dec_state post with
+  | Some s, Some ipost =>
+      let '(s', out) := run_blocks (Z.to_nat n) cx dt s in
+      mk_res "block" out (String.eqb out outcome) (diff_tables (enc_state s') post) "blocks"
+             (failed_monitors (did_monitors (cx_chain cx) (did ipost) ++ app_monitors true (cx_height cx + n - 1) ipost))
+             (negb (tables_eqb pre post))
+  | _, _ => res_undecodable "state"
   end.
 
 Definition check_step (pre ctx op outcome post : value) : value :=
   match dec_tables pre, dec_ctx ctx, unS outcome, dec_tables post with
   | Some pre, Some cx, Some outcome, Some post =>
       if is_select_op op then check_select cx pre op post
-      else match dec_op op with
+      else match op with
+           | VL [VS "Blocks"; VZ n; VZ dt] => check_blocks cx pre n dt outcome post
+           | _ =>
+           match dec_op op with
            | Some o => check_app_step cx pre o outcome post
            | None => VL [VS "unmodelled"]
-           end
+           end end
   | _, _, _, _ => res_undecodable "frame"
   end.
